@@ -11,7 +11,8 @@ sufficient, and necessary: `mpz_tdiv_q_request_necessary` —, operands copied t
 mpz_tdiv_r in temporary space), and mpf/urandomb.c on an mpf destination (a block of PREC + 1 limbs that is never reallocated: the clamp
 `nlimbs <= PREC + 1` keeps `_gmp_rand`, the in-place shift and the strip loop inside it; op `as4_mpf_urandomb` with the Mersenne Twister model of C19)
 in lean/Mpir/Model/AllocSafeMpz4.lean; mpz/sqrt.c (fresh block of (op_size + 1) / 2 limbs / temporary copy when root is op; its `free_me`
-arm proved dead).  Ops `as4_*`
+arm proved dead); the two-destination functions mpz/tdiv_qr.c and mpz/sqrtrem.c (statement shape `Safe2`: both outputs well formed, every other
+variable untouched).  Ops `as4_*`
 (harness/ops_allocsafe4.c) run the real function on objects of the GIVEN allocations in every alias mode and compare ALLOC(w), SIZ(w)
 and the value with the model's run."""
 from genlib import *
@@ -28,6 +29,7 @@ THEOREMS = ["Mpir.AllocSafe." + t for t in (
     "Spec.tdiv_q_spec", "Spec.tdiv_r_spec", "copyIfSame_spec",
     "mpf_urandomb_dest_safe", "mpf_urandomb_seeded_unsafe", "mpf_urandomb_fin_spec",
     "mpz_tdiv_qr_alloc_safe", "tdiv_qr_refines", "Grown.owf",
+    "mpz_sqrtrem_alloc_safe", "sqrtrem_refines", "sqrtremTail_refines", "Spec.sqrtrem_rem_spec",
     "mpz_sqrt_alloc_safe", "mpz_sqrt_free_me_dead", "sqrt_refines", "Spec.sqrt_spec", "sqrtTail_refines")]
 TRUSTED = ["hand-written size-aware models lean/Mpir/Model/AllocSafeMpz4.lean (mpz/aorsmul_i.c, aorsmul.c on the memory model of AllocSafe.lean; "
            "TMP_ALLOC_LIMBS (tsize) = a block of its own that no variable points to; mpn_mul = the schoolbook product written to "
